@@ -334,7 +334,11 @@ static int fresh(int mode, int only, int attempt, uint64_t *out, const char *err
 	while ((k = read(pfd[0], (char *)res + got, sizeof res - got)) > 0) got += (size_t)k;
 	close(pfd[0]);
 	int st = 0; waitpid(pid, &st, 0);
-	if (got != sizeof res || !WIFEXITED(st) || WEXITSTATUS(st) != 0) return -1;
+	if (got != sizeof res || !WIFEXITED(st) || WEXITSTATUS(st) != 0) {
+		fprintf(stderr, "thr: workload process failed (mode %d attempt %d): %s %d, %zu result bytes\n", mode, attempt,
+		    WIFSIGNALED(st) ? "signal" : "exit", WIFSIGNALED(st) ? WTERMSIG(st) : WEXITSTATUS(st), got);
+		return -1;
+	}
 	memcpy(out, res, sizeof res);
 	return 0;
 }
